@@ -909,6 +909,52 @@ def rule_OW7(ctx, mod, E):
     ctx.floor('C12.OW7.alias', 8)
 
 
+def rule_new_state(ctx, rule, only=None):
+    """Everything a Simulation remembers between calls is listed: inputs,
+    and results that `clean()` resets.  An attribute the class did not have
+    (not in the reference list sa/props/known_names.json) that is stored on
+    `self` outside the constructor is NEW remembered state; unless clean()
+    resets it, results start to depend on what was computed before (a flag
+    evaluated once, a cached intermediate)."""
+    from ..core import normal
+    mod = ctx.repo.mod(SIMS)
+    cls = mod.cls('Simulation')
+    ref = normal.known().get(SIMS, {}).get('<attrs>', {}).get('Simulation')
+    ctx.anchor(ref, 'reference attribute list of Simulation')
+    clean = mod.method('Simulation', 'clean')
+    ctext = ast.unparse(clean)
+    n = 0
+    for fn in cls.body:
+        if not isinstance(fn, ast.FunctionDef) or fn.name == '__init__':
+            continue
+        if only and fn.name not in only:
+            continue
+        for st in ast.walk(fn):
+            tgs = st.targets if isinstance(st, ast.Assign) else (
+                [st.target] if isinstance(st, (ast.AugAssign,
+                                               ast.AnnAssign)) else [])
+            for t in tgs:
+                for e in (t.elts if isinstance(t, (ast.Tuple, ast.List))
+                          else [t]):
+                    if isinstance(e, ast.Attribute) and isinstance(
+                            e.value, ast.Name) and e.value.id == 'self' \
+                            and e.attr not in ref:
+                        n += 1
+                        ok = f"'{e.attr}'" in ctext or \
+                            f'self.{e.attr}' in ctext
+                        ctx.check(rule, f'Simulation.{fn.name}: new '
+                                  f'attribute `{e.attr}`', ok,
+                                  f'`{au.stext(st)[:70]}` remembers a value '
+                                  'on the simulation that clean() does not '
+                                  'reset: later calls (after new observed '
+                                  'data, a model update, clean) still use '
+                                  'it, so results depend on the call '
+                                  'history', ctx.where(mod, st))
+    ctx.ok(rule, f'Simulation: remembered state is the listed state ({n} new '
+           'attributes)', sample={'new_attributes': n,
+                                  'reference': len(ref)})
+
+
 def run(ctx):
     ctx.explanation = (
         'Effect analysis of class Simulation: item paths (data.synthetic/'
@@ -950,3 +996,4 @@ def run(ctx):
     # saved and re-loaded data keep their labels (rule of C17, shared)
     from .c17 import h5_order
     h5_order(ctx, 'C12.OW5.h5order')
+    rule_new_state(ctx, 'C12.OW9.state')
